@@ -308,7 +308,13 @@ func cmdCheck(args []string) int {
 				b, _ := json.MarshalIndent(map[string]interface{}{"property": *prop, "recipe": rc.Name, "what": rc.What, "transcript": tr, "reproduced_on_real_code": true,
 					"replay_cmd": "bin/govc recipes " + rc.Name}, "", " ")
 				_ = os.WriteFile(path, b, 0644)
-				fmt.Printf("VIOLATION property=%s replay=%s a repaired defect reproduces again on the real code: %s\n", *prop, path, rc.What)
+				kind := "a repaired defect reproduces again on the real code"
+				if rc.Status == "bounded" {
+					kind = "the bounded stand-in check fails on the real code"
+				} else if rc.Status == "assumption-probe" {
+					kind = "an assumed contract of a dependency is contradicted by the real code"
+				}
+				fmt.Printf("VIOLATION property=%s replay=%s %s: %s\n", *prop, path, kind, rc.What)
 				exit = 1
 			case rc.Expect == "fail" && passed:
 				fmt.Printf("NOTE: known finding no longer reproduces on the real code: %s (%s)\n", rc.Name, rc.What)
